@@ -203,7 +203,21 @@ fn rec_obs<K: EnrKey>(e: &Enr<K>) -> String {
     let same_iter = into.len() == e.iter().count()
         && into.iter().zip(e.iter()).all(|((k1, v1), (k2, v2))| k1 == k2 && v1.as_ref() == v2);
     let nid_conv = NodeId::from(e) == e.node_id() && NodeId::from(e.clone()) == e.node_id();
-    let _ = write!(o, " glue={}", (absent && !dbg.is_empty() && dbgp_ok && same_iter && nid_conv && flagged_ok) as u8);
+    // Encodable::length() is what an enclosing list header is computed from: it must be the number of bytes written,
+    // and a list of records must decode back to the same records
+    let mut enc0 = Vec::new();
+    e.encode(&mut enc0);
+    let len_ok = alloy_rlp::Encodable::length(e) == enc0.len();
+    let pair = vec![e.clone(), e.clone()];
+    let mut lst = Vec::new();
+    alloy_rlp::Encodable::encode(&pair, &mut lst);
+    let nested_ok = match <Vec<Enr<K>> as alloy_rlp::Decodable>::decode(&mut lst.as_slice()) {
+        Ok(v) => v.len() == 2 && v[0] == *e && v[1] == *e,
+        Err(_) => false,
+    } || enc0.len() * 2 + 3 > 65536
+        // (a record made by a lying signer is not accepted alone either: nothing to compare)
+        || !matches!(Enr::<K>::decode(&mut enc0.as_slice()), Ok(d) if d == *e);
+    let _ = write!(o, " glue={}", (absent && !dbg.is_empty() && dbgp_ok && same_iter && nid_conv && flagged_ok && len_ok && nested_ok) as u8);
     // is the record accepted again by the decoder, as itself?
     let mut enc2 = Vec::new();
     e.encode(&mut enc2);
@@ -303,6 +317,8 @@ fn run_op<K: Kt>(st: &mut State<K>, t: &[&str]) -> String {
         Some(k) => k,
         None => return "nokey".into(),
     };
+    // a saved record used as a VALUE (insert_enr <key> <slot>): anything Encodable may be inserted, a record included
+    let value_enr = if name == "insert_enr" { a.get(1).and_then(|n| n.parse::<usize>().ok()).and_then(|n| st.saved.get(&n).cloned()) } else { None };
     let Some(e) = st.cur.as_mut() else { return "norec".into() };
     set_fail(fail);
     let _ = logs();
@@ -315,6 +331,10 @@ fn run_op<K: Kt>(st: &mut State<K>, t: &[&str]) -> String {
             "insert_raw" => e
                 .insert_raw_rlp(unhx(a[0]), Bytes::from(unhx(a[1])), key)
                 .map(|o| opt(o, |b| hx(&b))),
+            "insert_enr" => match &value_enr {
+                Some(v) => e.insert(unhx(a[0]), v, key).map(|o| opt(o, |b| hx(&b))),
+                None => e.insert(unhx(a[0]), &vec![e.clone()], key).map(|o| opt(o, |b| hx(&b))),
+            },
             "set_ip" => e.set_ip(ip_of(&unhx(a[0])), key).map(|o| opt(o, |ip| ip_hex(&ip))),
             "set_udp4" => port(e.set_udp4(a[0].parse().unwrap(), key)),
             "set_udp6" => port(e.set_udp6(a[0].parse().unwrap(), key)),
@@ -601,6 +621,19 @@ fn run<K: Kt>(input: &mut dyn BufRead, out: &mut dyn Write) {
                         let by_reader = serde_json::from_reader::<_, Enr<K>>(std::io::Cursor::new(s.as_bytes().to_vec())).ok();
                         let by_value = serde_json::from_str::<serde_json::Value>(&s).ok().and_then(|v| serde_json::from_value::<Enr<K>>(v).ok());
                         alt = same(&by_slice) && same(&by_reader) && same(&by_value);
+                        // deserializers of other formats hand over bytes, borrowed strings or owned strings: they may
+                        // accept or refuse, but must return (results not compared; a panic makes this whole line a panic)
+                        {
+                            use serde::de::value::{BorrowedBytesDeserializer, BorrowedStrDeserializer, BytesDeserializer, Error as VErr, StringDeserializer};
+                            use serde::Deserialize;
+                            for b in [sb.as_slice(), &sb[..sb.len().min(1)], &[][..]] {
+                                let _ = Enr::<K>::deserialize(BytesDeserializer::<VErr>::new(b));
+                                let _ = Enr::<K>::deserialize(BorrowedBytesDeserializer::<VErr>::new(b));
+                            }
+                            let _ = Enr::<K>::deserialize(BorrowedStrDeserializer::<VErr>::new(&s));
+                            let _ = Enr::<K>::deserialize(StringDeserializer::<VErr>::new(s.clone()));
+                            let _ = Enr::<K>::deserialize(StringDeserializer::<VErr>::new(String::new()));
+                        }
                         main
                     }
                 }));
